@@ -2,7 +2,7 @@ CLAIMED = True
 SPEC = {
     "id": "C35",
     "props": "PlzVerif/Props/C35.lean",
-    "extract": ["c35"],
+    "extract": ["c35", "c01"],   # c01: moveOutputKeepsOldOnEqualHash feeds genS.keepOld
     "harness": "c35",
     "driver": "Driver/C35.lean",
     "needs_plz": True,
